@@ -32,6 +32,10 @@ type C10Desc struct {
 	VSS    string `json:"vss,omitempty"`    // stream-switch signal id (two-UPID MID)
 	Jitter int64  `json:"jitter,omitempty"` // timer fires at pts+dur+jitter (negative: early)
 	Twice  bool   `json:"twice,omitempty"`  // the timer fires twice
+	// Cancel: segmentation_event_cancel_indicator is set (through the transport path such a
+	// descriptor arrives with nothing but its event id); it is a descriptor like any other
+	// for the tracker: what it closes must be closable by it under the rules
+	Cancel bool `json:"cancel,omitempty"`
 }
 
 type C10Signal struct {
@@ -95,7 +99,7 @@ func (c10) Info() core.Info {
 			"closed lists and Open() results returned earlier must not change under later calls (they are the caller's)",
 		},
 		SimTimeUnit:    "sim_ticks_90khz",
-		RequiredProbes: []string{"breakaway_then_closer", "breakaway_then_explicit_close_below", "resumption_with_breakaway", "resumption_without_breakaway", "second_breakaway", "dup_within_ring", "dup_beyond_ring", "timer_close_hit", "timer_close_miss", "multi_descriptor_signal", "pts_wrap", "no_pts", "vss_pair", "open_depth_ge4", "transport_path", "same_object_twice", "held_lists_checked", "caller_wipes_open_list", "unpolled_stretch", "unpolled_ge_256_calls", "open_depth_ge64", "restamped_signal_through_transport", "pts_time_plus_adjustment_wraps"},
+		RequiredProbes: []string{"breakaway_then_closer", "breakaway_then_explicit_close_below", "resumption_with_breakaway", "resumption_without_breakaway", "second_breakaway", "dup_within_ring", "dup_beyond_ring", "timer_close_hit", "timer_close_miss", "multi_descriptor_signal", "pts_wrap", "no_pts", "vss_pair", "open_depth_ge4", "transport_path", "same_object_twice", "held_lists_checked", "caller_wipes_open_list", "unpolled_stretch", "unpolled_ge_256_calls", "open_depth_ge64", "restamped_signal_through_transport", "pts_time_plus_adjustment_wraps", "descriptor_with_cancel_indicator"},
 	}
 }
 
@@ -136,6 +140,9 @@ func c10GenAdversarial(r *core.Rand) *C10Script {
 			}
 			if d.Type == 0x40 && r.Bool() {
 				d.VSS = r.PickS("sigA", "sigB", "sigA", "sigB", c10RawVSS[r.Intn(len(c10RawVSS))])
+			}
+			if r.Chance(1, 20) {
+				d.Cancel = true
 			}
 			if r.Chance(1, 5) {
 				d.Dur = int64(r.Pick(1, 90000, 900000))
@@ -590,6 +597,9 @@ func c10Build(sg C10Signal, base int64) (scte35.SCTE35, []scte35.SegmentationDes
 			u2.SetUPID([]byte("comcast:linear:licenserotation"))
 			x.SetMID([]scte35.UPID{u1, u2})
 		}
+		if d.Cancel {
+			x.SetIsEventCanceled(true)
+		}
 		x.SetTypeID(scte35.SegDescType(d.Type))
 		x.SetSegmentNumber(uint8(d.SegNum))
 		x.SetSegmentsExpected(uint8(d.SegExp))
@@ -992,6 +1002,9 @@ func (c10) Exec(script interface{}, c *core.Ctx) {
 		if info[d] == nil {
 			nproc++
 			info[d] = &c10Info{seq: nproc, typ: int(d.TypeID())}
+		}
+		if d.IsEventCanceled() {
+			c.Probe("descriptor_with_cancel_indicator")
 		}
 		hasPTS := d.SCTE35().HasPTS()
 		var closed []scte35.SegmentationDescriptor
